@@ -97,7 +97,7 @@ def facts_of(x):
 
 
 def main(tier):
-    run = vlib.Run("C17", "model_checking", tier)
+    run = vlib.Run("C17", "exploration", tier)
     vlib.build_harness()
     wd = vlib.spec_scratch(["c17", "crypto"])
     try:
